@@ -180,9 +180,12 @@ def body(chk: check.Check):
                 res = tlc.run('AuditGen', audit.cfg(panel, max_ops, salt, est, chain), extra_modules={'AuditGen': audit.module(panel, thin)},
                               workers='auto', timeout=2400)
                 chk.add_tlc(f'Audit: panel={panel} estimation={est} ops<={max_ops} thin={thin}' + (' chains' if chain else ''), res)
-                for n_, r_ in enumerate(res.emitted):
+                emitted = res.emitted
+                if chain and quick and len(emitted) > 400:      # the residue classes of the chains are lumpy: a regular sample
+                    emitted = emitted[:: -(-len(emitted) // 400)]
+                for n_, r_ in enumerate(emitted):
                     r_['light'] = quick and n_ % 4 != 0
-                recs += res.emitted
+                recs += emitted
     chk.rule = ('formula DAGs generated by TLC from Audit.tla (fault leaves: unknown column, parameter named like a column, draw, '
                 'integration variable; binders; every operator class; both data kinds; both entry points) with the expected verdict; '
                 'distinct = distinct (formula, data kind, entry point); plus the scenarios of AuditScenarios.tla')
